@@ -72,7 +72,13 @@ def render_strings(k, it: Item, meta, cfg, extra_derives=(), strum_path="strum")
         if std not in dl:
             dl.append(std)
     bounds = meta.get("bounds", "Default + Clone + PartialEq + core::fmt::Debug" if it.tparams else "")
-    src = [render_item(it, dl, bounds=bounds)]
+    if meta.get("shadow_prelude"):
+        # the enum lives in a module whose glob import of its own variants (named Ok / Err / Some / None) SHADOWS the prelude:
+        # generated code that says `Ok(..)` instead of `::core::result::Result::Ok(..)` stops compiling there
+        src = ["pub use self::shadow::%s;\npub mod shadow {\n#![allow(unused_imports, dead_code)]\nuse super::*;\nuse self::%s::*;\n%s\n}" % (
+            it.ident, it.ident, render_item(it, dl, bounds=bounds))]
+    else:
+        src = [render_item(it, dl, bounds=bounds)]
     ty = RR.inst(it)
     E = RR.turbofish(it)
     src.append(RR.vobs_fn(it))
